@@ -151,3 +151,23 @@ def no_output_direct(result):
                 out.append(("private-key-op-after-logout.%s" % op[0], "`%s` answered CKR_OK with %s output bytes although the normal user is not logged in on the token "
                             "(the operation was started with a private key before C_Logout)" % (" ".join(op)[:80], res[2])))
     return out
+
+
+def expect_login_direct(result):
+    """`nop expect-login <rv>`: the next C_Login must answer exactly that code (0 for the PIN most recently set, 160 = CKR_PIN_INCORRECT for a replaced one)"""
+    out, want = [], None
+    ls = [l for l in result.transcript.splitlines() if l.strip()]
+    i = 0
+    pend = None
+    while i + 1 < len(ls):
+        if ls[i].startswith("=") or ls[i].startswith("#"): i += 1; continue
+        op, res = ls[i].split(), ls[i + 1].split()
+        if not res or res[0] != "=": i += 1; continue
+        i += 2
+        if op[:2] == ["nop", "expect-login"] and len(op) > 2:
+            want = int(op[2]); continue
+        if op[0] == "login" and want is not None:
+            if res[1] != str(want): out.append(("pin-after-other-process.%s.want%s.got%s" % ("user" if op[2] == "1" else "so", want, res[1]),
+                                                 "a fresh process: C_Login(%s, %s) answered %s, expected %s (the PIN most recently set by ANY process authenticates, a replaced one does not)" % ("user" if op[2] == "1" else "SO", bytes.fromhex(op[3]).decode("latin1"), res[1], want)))
+            want = None
+    return out
